@@ -109,6 +109,9 @@ Properties/C06.vos Properties/C06.vok Properties/C06.required_vos: Properties/C0
 Properties/C07.vo Properties/C07.glob Properties/C07.v.beautified Properties/C07.required_vo: Properties/C07.v Ast.vo Generated.vo Config.vo Model.vo Directives.vo P_Directives.vo
 Properties/C07.vio: Properties/C07.v Ast.vio Generated.vio Config.vio Model.vio Directives.vio P_Directives.vio
 Properties/C07.vos Properties/C07.vok Properties/C07.required_vos: Properties/C07.v Ast.vos Generated.vos Config.vos Model.vos Directives.vos P_Directives.vos
+Properties/C08.vo Properties/C08.glob Properties/C08.v.beautified Properties/C08.required_vo: Properties/C08.v Ast.vo Generated.vo Config.vo Model.vo P_OpVisit.vo P_Kinds.vo P_Program.vo P_Hooks.vo
+Properties/C08.vio: Properties/C08.v Ast.vio Generated.vio Config.vio Model.vio P_OpVisit.vio P_Kinds.vio P_Program.vio P_Hooks.vio
+Properties/C08.vos Properties/C08.vok Properties/C08.required_vos: Properties/C08.v Ast.vos Generated.vos Config.vos Model.vos P_OpVisit.vos P_Kinds.vos P_Program.vos P_Hooks.vos
 Properties/C09.vo Properties/C09.glob Properties/C09.v.beautified Properties/C09.required_vo: Properties/C09.v SrcMap.vo P_SrcMap.vo
 Properties/C09.vio: Properties/C09.v SrcMap.vio P_SrcMap.vio
 Properties/C09.vos Properties/C09.vok Properties/C09.required_vos: Properties/C09.v SrcMap.vos P_SrcMap.vos
@@ -130,3 +133,6 @@ Properties/C14.vos Properties/C14.vok Properties/C14.required_vos: Properties/C1
 Properties/C15.vo Properties/C15.glob Properties/C15.v.beautified Properties/C15.required_vo: Properties/C15.v Ast.vo Generated.vo Config.vo Model.vo P_Telemetry.vo
 Properties/C15.vio: Properties/C15.v Ast.vio Generated.vio Config.vio Model.vio P_Telemetry.vio
 Properties/C15.vos Properties/C15.vok Properties/C15.required_vos: Properties/C15.v Ast.vos Generated.vos Config.vos Model.vos P_Telemetry.vos
+Properties/C16.vo Properties/C16.glob Properties/C16.v.beautified Properties/C16.required_vo: Properties/C16.v Ast.vo Generated.vo Config.vo Model.vo
+Properties/C16.vio: Properties/C16.v Ast.vio Generated.vio Config.vio Model.vio
+Properties/C16.vos Properties/C16.vok Properties/C16.required_vos: Properties/C16.v Ast.vos Generated.vos Config.vos Model.vos
